@@ -35,12 +35,20 @@ class ViaSocksPeer(Peer):
         self.state = 'greeting'
         self.stream = None
         self.gone = False
+        self.drop_early = run.mode == 'via' and run.ch.chance(1, 6, 'viadrop')
 
     def connection_made(self, conn):
         self.conn = conn
 
     def data_received(self, data):
         self.buf += data
+        if self.state == 'greeting' and self.drop_early:
+            # the SOCKS connection dies before Tor has seen a request: no stream ever exists for it
+            self.state = 'dropped'
+            self.sport = self.conn.transport.getHost().port
+            self.run.sim.fault('via-socks-dropped-before-request')
+            self.conn.reset()
+            return
         if self.state == 'greeting' and len(self.buf) >= 3:
             del self.buf[:2 + self.buf[1]]
             self.conn.send(b'\x05\x00')
@@ -100,6 +108,7 @@ class C09Run(StateRun):
         self.state._attacher_error = self.on_attacher_error
         self.real_to_model = {}
         sim.net.listen('tcp', 9050, lambda dest: ViaSocksPeer(self))
+        sim.reactor.local_port_hook = self.local_port
         sim.add_source(self.c09_actions)
 
     def finished(self):
@@ -126,6 +135,13 @@ class C09Run(StateRun):
             s = StateRun.w_stream_new(self, via=via, sport=p, target=target or ('reuse%d.example' % p, 80))
             return s
         return StateRun.w_stream_new(self, via=via, sport=sport, target=target)
+
+    def local_port(self, connector, drawn):
+        # the kernel may hand a later SOCKS connection the local port an earlier, finished one used
+        if self.mode == 'via' and connector.dest[1] == 9050 and self.free_sports and self.ch.chance(1, 2, 'reuselport'):
+            self.sim.probe('via-connection-reuses-local-port')
+            return self.free_sports.pop(0)
+        return drawn
 
     def socks_request(self, peer, host, port, sport):
         peer.sport = sport
@@ -299,6 +315,16 @@ class C09Run(StateRun):
             gone = Silent()
             pa.add_attacher(gone, priority=0)
             pa.add_attacher(Silent(), priority=0)
+            if self.ch.chance(1, 2, 'retiring'):
+                # a sub-attacher that retires itself from inside its first consultation (and has no opinion)
+                @implementer(IStreamAttacher)
+                class Retiring(Silent):
+                    def attach_stream(this, stream, circuits):
+                        if this in pa._attacher_to_entry:
+                            self.sim.probe('sub-attacher-removed-inside-consultation')
+                            pa.remove_attacher(this)
+                        return None
+                pa.add_attacher(Retiring(), priority=0)
             pa.add_attacher(self.attacher, priority=self.ch.pick([0, 1, 5], 'prio'))
             pa.remove_attacher(gone)
             self.installed_obj = pa
